@@ -509,9 +509,6 @@ func (g *Gen) one(m *State, perturb bool) sdk.Msg {
 				amt = big.NewInt(-1)
 			case 2:
 				denom = Denoms[r.Intn(len(Denoms)-1)+1]
-				if denom == "uuſdc" {
-					denom = "ueure" // the case-folding look-alike is exercised by C20 only (it panics: D5)
-				}
 			case 3:
 				mr = g.shape32()
 			case 4:
